@@ -482,8 +482,8 @@ func genStress(t *rapid.T, maxDepth int) []byte {
 }
 
 // genLongLine: very long single tokens / lines.
-func genLongLine(t *rapid.T) []byte {
-	n := rapid.IntRange(1000, 60000).Draw(t, "len")
+func genLongLine(t *rapid.T, maxLen int) []byte {
+	n := rapid.IntRange(1000, maxLen).Draw(t, "len")
 	switch rapid.IntRange(0, 7).Draw(t, "llk") {
 	case 0:
 		return []byte("x = \"" + strings.Repeat("a", n) + "\"\n")
